@@ -72,28 +72,34 @@ func c09Run(ctx *core.Ctx) {
 										vectors = append(vectors, v)
 									}
 								}
-								for _, v := range vectors {
-									idx++
-									r := core.NewRand(ctx.Seed, 91, uint64(idx))
-									c := c09Case{Kind: "srv", TLS: tls, Insecure: ins, AuthBackend: ab, Result: res, IR: ir}
-									for i := 0; i < nch; i++ {
-										c.Challenges = append(c.Challenges, c09Octets[r.Intn(len(c09Octets))])
-									}
-									c.IRBytes = c09Octets[r.Intn(len(c09Octets)-1)]
-									for _, k := range v {
-										st := c09Step{Kind: k, Bytes: c09Octets[r.Intn(len(c09Octets)-1)]}
-										if k == "long" {
-											st.Bytes = []byte(strings.Repeat("L", 1100))
+								draws := 1
+								if ctx.Thorough() {
+									draws = 12
+								}
+								for d := 0; d < draws; d++ {
+									for _, v := range vectors {
+										idx++
+										r := core.NewRand(ctx.Seed, 91, uint64(idx))
+										c := c09Case{Kind: "srv", TLS: tls, Insecure: ins, AuthBackend: ab, Result: res, IR: ir}
+										for i := 0; i < nch; i++ {
+											c.Challenges = append(c.Challenges, c09Octets[r.Intn(len(c09Octets))])
 										}
-										c.Steps = append(c.Steps, st)
-									}
-									for hi, hist := range []string{"", "pregreet", "afterrset", "afterehlo", "plainauth-then-starttls"} {
-										if !ctx.Thorough() && hi != 0 && (idx+hi)%2 == 0 {
-											continue
+										c.IRBytes = c09Octets[r.Intn(len(c09Octets)-1)]
+										for _, k := range v {
+											st := c09Step{Kind: k, Bytes: c09Octets[r.Intn(len(c09Octets)-1)]}
+											if k == "long" {
+												st.Bytes = []byte(strings.Repeat("L", 1100))
+											}
+											c.Steps = append(c.Steps, st)
 										}
-										cc := c
-										cc.History = hist
-										emit(cc)
+										for hi, hist := range []string{"", "pregreet", "afterrset", "afterehlo", "plainauth-then-starttls"} {
+											if !ctx.Thorough() && hi != 0 && (idx+hi)%2 == 0 {
+												continue
+											}
+											cc := c
+											cc.History = hist
+											emit(cc)
+										}
 									}
 								}
 							}
